@@ -767,8 +767,8 @@ def terms_are_like(
     if len(one.variables) != len(two.variables):
         return False
 
-    invalid = len([False for v in one.variables if v not in two.variables]) > 0
-    if invalid:
+    # The same variables the same number of times, whichever term is asked first
+    if sorted(one.variables) != sorted(two.variables):
         return False
 
     # Also, the exponents must match
